@@ -728,7 +728,8 @@ def fam_regress(tier, seed):
             {"when": {"i": "B", "kind": "create", "src": "acq", "nth": 6, "phase": "post"}, "do": "noop",
              "then": [{"do": "sleep", "us": rng.choice([4050, 4100, 4150]) * MS}]},
             {"when": {"i": "C", "kind": "update", "src": "hb", "nth": 1, "phase": "pre"}, "do": "noop", "then": [{"do": "sleep", "us": 1600 * MS}]}],
-            "regress", 14 * H1 + 2 * S, lat=20 * MS, watch=30 * MS))
+            "regress", 14 * H1 + 2 * S, lat=20 * MS, watch=30 * MS,
+            rules=[{"match": {"i": "B", "kind": "create", "src": "acq"}, "fault": "slow:800000", "from_nth": 7, "count": 0}]))   # C wins the race after the expiry
         # 18. followers whose connection was reported lost and back: they still take part (periodic check without notifications,
         #     takeover of a lower-priority leader that won the race because this follower's notifications are late)
         out.append(scn("reg-follower-after-reconnect-fills-vacancy-%d" % k, seed * 1000 + k, H, ratio, [inst("A"), inst("B", conn=True)], [
@@ -742,6 +743,12 @@ def fam_regress(tier, seed):
             {"at": int(1.5 * H1), "do": "disc", "i": "B"}, {"at": int(1.8 * H1), "do": "reconn", "i": "B"},
             {"at": 3 * H1, "do": "stopctx", "i": "A", "del": True}], "regress", 9 * H1 + 2 * S, lat=20 * MS, watch=30 * MS,
             rules=[{"match": {"i": "B", "kind": "deliver"}, "fault": "slow:400000", "from_nth": 1, "count": 0}]))
+        # 20. the application cancels the context it gave to Start and then stops the election: the stop call still does its work
+        for v in rng.sample(range(len(STOP_VARIANTS)), 2):
+            out.append(scn("reg-stop-after-start-context-cancelled-v%d-%d" % (v, k), seed * 1000 + k, H, ratio, [inst("A"), inst("B")], [
+                {"at": 0, "do": "start", "i": "A"}, {"at": H // 4, "do": "start", "i": "B"},
+                {"at": int(2.3 * H), "do": "cancel_start_ctx", "i": rng.choice("AB")}, {"at": int(2.3 * H), "do": "cancel_start_ctx", "i": "A"},
+                dict(STOP_VARIANTS[v], at=int(2.3 * H) + rng.choice([0, 10 * MS]), i="A")], "regress", 8 * H + 2 * S, lat=20 * MS, watch=30 * MS))
         # 19. a heartbeat tick held by a hanging health check while the leader is preempted and, as a follower, observes its
         #     successor's next refresh: when the check returns the tick must not go on to the Update
         out.append(scn("reg-hanging-check-across-preemption-%d" % k, seed * 1000 + k, H1, 5.0,
